@@ -96,3 +96,7 @@ Example toy_file :
   let s := {| f_data := [10; 11; 12; 13; 14]; f_pos := 0; f_closed := false |} in
   f_chunks s [2; 2; 2; 2]%Z = [[10; 11]; [12; 13]; [14]; []].
 Proof. reflexivity. Qed.
+
+(* detect_file_format reads with a positive chunk size (so the loop makes progress) *)
+Lemma detect_chunk_size_pos : (0 < detect_chunk_size)%Z.
+Proof. reflexivity. Qed.
